@@ -4,6 +4,8 @@ import glob, json, os, re, collections
 root = os.path.dirname(os.path.dirname(os.path.abspath(__file__)))
 rows = collections.OrderedDict()
 for log in sorted(glob.glob(os.path.join(root, "work", "sweep*.log"))):
+    if os.path.basename(log).startswith("sweep-seeds"):
+        continue
     for line in open(log, errors="replace"):
         m = re.match(r"^(\S+) (repo-tests): (\S+)", line)
         if m:
@@ -25,12 +27,19 @@ for name in sorted(rows):
     res = "; ".join(f"{k} {v[0]}" + (f" (`{v[1][:90]}`)" if v[1] and v[0] == 'CAUGHT' else "") for k, v in sorted(rows[name]["res"].items()))
     out.append(f"| {name} | {rows[name]['tests']} | {exp} | {res} |")
 out += ["", "`control-*` mutants keep every property true and must stay MISSED everywhere (negative control).", "",
-        "## Seeded changes (sub-agents)", "", "| id | change | needs to manifest | outcome |", "|---|---|---|---|"]
+        "## Seeded changes (sub-agents)", "", "| id | change | needs to manifest | history | last sweep of the property's own check (tools/sweep_seeds.sh) |", "|---|---|---|---|---|"]
+last = {}
+sl = os.path.join(root, "work", "sweep-seeds.log")
+if os.path.exists(sl):
+    for line in open(sl, errors="replace"):
+        m = re.match(r"^(\S+) (C\d\d) (CAUGHT|MISSED|INCONCLUSIVE\S*):?\s*(.*)", line)
+        if m:
+            last[m.group(1)] = m.group(3) + (" (`" + m.group(4).split(" :: ")[0].strip()[:80] + "`)" if m.group(3) == "CAUGHT" else "")
 for d in sorted(glob.glob(os.path.join(root, "seeded", "*"))):
     mp = os.path.join(d, "meta.json")
     if not os.path.exists(mp):
         continue
     m = json.load(open(mp))
-    out.append(f"| {os.path.basename(d)} | {m.get('change','')} | {m.get('needs_to_manifest','')} | {m.get('checks_run_against_it','')} |")
+    out.append(f"| {os.path.basename(d)} | {m.get('change','')} | {m.get('needs_to_manifest','')} | {m.get('checks_run_against_it','')} | {last.get(os.path.basename(d), '')} |")
 open(os.path.join(root, "tools", "sensitivity.md"), "w").write("\n".join(out) + "\n")
 print("wrote tools/sensitivity.md with", len(rows), "mutants")
